@@ -714,7 +714,9 @@ AuthzSets == {<<[mt |-> "PUBLISH", who |-> "remote", dec |-> "deny"], [mt |-> "C
               <<[mt |-> "ERROR", who |-> "any", dec |-> "deny"], [mt |-> "CALL", who |-> "user", dec |-> "deny"]>>,
               <<[mt |-> "ERROR", who |-> "remote", dec |-> "rewrite"], [mt |-> "ERROR", who |-> "trusted", dec |-> "fail"],
                 [mt |-> "PUBLISH", who |-> "any", dec |-> "deny"]>>,
-              <<[mt |-> "PUBLISH", who |-> "any", dec |-> "allow"]>>}
+              <<[mt |-> "PUBLISH", who |-> "any", dec |-> "allow"]>>,
+              <<[mt |-> "GOODBYE", who |-> "remote", dec |-> "deny"], [mt |-> "SUBSCRIBE", who |-> "admin", dec |-> "fail"]>>,
+              <<[mt |-> "GOODBYE", who |-> "user", dec |-> "fail"], [mt |-> "CALL", who |-> "remote", dec |-> "deny"]>>}
 AuthCfgs == {[anon |-> an, methods |-> ms, lauth |-> la, crtmo |-> tmo] :
                an \in BOOLEAN, la \in BOOLEAN, tmo \in {2000, 60000},
                ms \in {<<"ticket", "wampcra", "cryptosign">>, <<"wampcra">>, <<"cryptosign", "ticket">>, <<"ticket">>, <<"cryptosign">>}}
